@@ -33,6 +33,7 @@ def patch_porepy():
     import porepy  # noqa: F401
 
     _patch_hashing()
+    _patch_adarray()
     for name, mod in list(sys.modules.items()):
         if mod is None or not name.startswith("porepy"):
             continue
@@ -43,6 +44,28 @@ def patch_porepy():
         if d.get("sps") is _sps:
             mod.sps = spsproxy
             _patched.append((mod, "sps", _sps))
+
+
+def _patch_adarray():
+    """Inside a symbolic session every AdArray Jacobian is held as a SymSparse (exact lift of
+    the concrete matrix), so that in-place restructuring helpers (merge_matrices) that mix a
+    concrete and a symbolic Jacobian keep working.  The AdArray code itself is unchanged."""
+    import porepy.numerics.ad.forward_mode as fm
+
+    from .explore import Session
+    from .sparse import SymSparse
+
+    orig = fm.AdArray.__init__
+    if getattr(orig, "_pv_wrapped", False):
+        return
+
+    def __init__(self, val, jac):
+        if Session.active and _sps.issparse(jac) and not isinstance(jac, SymSparse):
+            jac = SymSparse.lift(jac)
+        orig(self, val, jac)
+
+    __init__._pv_wrapped = True
+    fm.AdArray.__init__ = __init__
 
 
 def _patch_hashing():
